@@ -168,6 +168,12 @@ func rulePairDedup(w *World, r *Report, fn string) {
 		r.add("DISTINCT-PAIR", fn, "?", Unresolved, "function not found")
 		return
 	}
+	// a duplicate pair skips that pair only, and every input ID reaches the pair loops
+	if why := seenLeavesLoop(w, f); why != "" {
+		r.Rule("NOSKIP", "a duplicate found in a seen-set skips that element only: the hit edge of the test returns to the header of the innermost loop around it")
+		r.add("NOSKIP", fn+" / seen-set hit", w.Pos(f.Pos()), Violated, why)
+	}
+	ruleNoSkip(w, r, fn)
 	pos := w.Pos(f.Pos())
 	outer := loopOverParam(f, 0)
 	if outer == nil {
